@@ -190,14 +190,24 @@ def xml_unmarshal(I, args, ins):
     ctx.event('xml.Unmarshal', t, info[0] if info else None)
     if info is not None and info[0] == 'marshal' and info[1] == t:
         return decode_into(I, t, ptr, info[2])
+    if (info is not None and info[0] == 'marshal' and info[1] is not None and info[1] != t
+            and info[1].endswith('saml.EntitiesDescriptor') and t.endswith('saml.EntityDescriptor')):
+        # encoding/xml names the root element it found
+        return ctx.new_error('xml', msg='expected element type <EntityDescriptor> but have <EntitiesDescriptor>')
     if info is not None and info[0] == 'xmltext':
         return _unmarshal_text_element(I, info, t, ptr)
     if info is not None and info[0] == 'serialize':
         r = UNMARSHAL_ELEMENT_HOOK(I, info, t, ptr)
         if r is not NotImplemented:
             return r
-    if ctx.choose(2, 'xmlerr') == 1:
+    # foreign bytes: a syntax error, (for a metadata root) the "wrong root element" error that names the
+    # element found, or an arbitrary value of the target type
+    nalt = 3 if t.endswith('saml.EntityDescriptor') else 2
+    alt = ctx.choose(nalt, 'xmlerr')
+    if alt == 1:
         return ctx.new_error('xml', msg='xml: syntax error')
+    if alt == 2:
+        return ctx.new_error('xml', msg='expected element type <EntityDescriptor> but have <EntitiesDescriptor>')
     n = ctx.ghost.setdefault('unmarshal_n', [0])
     n[0] += 1
     ctx.store_(ptr, ctx.fresh(t, 'xml%d' % n[0]))
